@@ -162,6 +162,18 @@ check("C07", "fault_enumeration",
       "runtime monitoring: recording + fault-injecting resolver wrapper, per-event fault enumeration, history-independence oracle",
       "DESIGN.md §3 C07")
 
+check("C12", "exploration",
+      "Evaluates the cross product of flag subsets x widths x precisions x 15 conversions x 25 values (full "
+      "413k-cell product in thorough, a covering sample + 20k random cells in quick) as `fmt % vals` and "
+      "std.format on the rel and overflow-checked builds, plus 60 malformed / truncated / edge format strings x "
+      "34 argument shapes, and compares each result string / error-ness with a Python port of the reference "
+      "std.format algorithm.",
+      "The port is self-validated against Python's own % before every run (a failure = inconclusive); it abstains "
+      "on rounding ties, exact powers of ten under e/g, fractional values under o/x, negative * widths and widths "
+      "beyond 65535, where the published algorithms disagree or an implementation limit applies.",
+      "runtime monitoring: differential oracle (port of the reference algorithm, self-validated) over the format-code cross product, rel + overflow-checked builds",
+      "DESIGN.md §3 C12")
+
 NOT_APPLICABLE = []
 
 
